@@ -1,0 +1,23 @@
+// +build verif
+
+package wasp
+
+// Verification hooks (build tag "verif"): expose unexported pieces to the
+// model-based verification harness. Not compiled into regular builds.
+
+// VerifMIDPool is the packet identifier allocator interface.
+type VerifMIDPool interface {
+	Get() int32
+	Put(int32)
+}
+
+// VerifNewMIDPool returns the allocator used by the writer, for the given range.
+func VerifNewMIDPool(min, max int32) VerifMIDPool { return newMIDPool(min, max) }
+
+// VerifWriterPool returns the identifier allocator of a writer built by NewWriter.
+func VerifWriterPool(w Writer) VerifMIDPool {
+	if ww, ok := w.(*writer); ok {
+		return ww.midPool
+	}
+	return nil
+}
